@@ -95,11 +95,20 @@ func (o op) String() string {
 
 // apply runs op on the real cache; returns index of the key whose expansion came back (-1 nil, -2 foreign).
 func apply(c cache.Cache, o op) int {
+	// the key is handed over in a scratch variable that the caller overwrites straight after the call: the cache
+	// must not keep (alias) caller-owned memory
+	kp := new(curve.CompressedEdwardsY)
+	*kp = keys[o.k]
+	defer func() {
+		for i := range kp {
+			kp[i] = 0xee
+		}
+	}()
 	if o.put {
-		c.Put(&keys[o.k], exps[o.k])
+		c.Put(kp, exps[o.k])
 		return -1
 	}
-	r := c.Get(&keys[o.k])
+	r := c.Get(kp)
 	if r == nil {
 		return -1
 	}
